@@ -231,6 +231,64 @@ pub fn main(args: &Args) -> ! {
         }
     }
     rep.part("balance_and_no_spurious_loss", json!({"cases": res.len(), "capped": capped}));
+    // balance through the handshake: every drop subset of the first K datagrams, with and without
+    // Retry, also with a link slower than the initial probe timeout (Initials are retransmitted
+    // before the first answer arrives): whatever was abandoned along the way (packet number
+    // spaces, Initial keys after a Retry) must have left the in-flight accounting
+    {
+        let kb: u32 = if thorough { 10 } else { 7 };
+        let mut tasks = vec![];
+        for retry in [false, true] {
+            for lat in [10u64, 600] {
+                for ctl in [Ctl::Cubic, Ctl::Fixed(12_000)] {
+                    for wl in [Wl::W1, Wl::W2] {
+                        if !thorough && (lat == 600 && wl == Wl::W2) {
+                            continue;
+                        }
+                        for mask in 0..(1u64 << kb) {
+                            tasks.push((retry, lat, ctl, wl, mask));
+                        }
+                    }
+                }
+            }
+        }
+        let planned = tasks.len();
+        let (res, capped) = e3(tasks, dl, |&(retry, lat, ctl, wl, mask)| {
+            guarded(|| {
+                let mut cfg = cfg_by_name("default");
+                cfg.latency = Duration::from_millis(lat);
+                cfg.retry = retry;
+                cfg.client.controller = ctl;
+                cfg.server.controller = ctl;
+                let mut p = std_pair_pre(base, &cfg, wl, ReadMode::default(), |w| w.drop_mask = mask);
+                let done = crate::scen::drive(&mut p, &[], 60_000, Duration::from_secs(1800));
+                settle_down(&mut p);
+                let mut v = vec![];
+                if done && workload_done(&p) {
+                    v.extend(balance_violations(&p));
+                } else {
+                    v.push(("incomplete".into(), format!("workload did not complete: {}", crate::scen::diagnose(&p))));
+                }
+                (p.w.trace_hash(), v)
+            })
+        });
+        rep.exhaustive &= !capped;
+        for ((retry, lat, ctl, wl, mask), r) in &res {
+            rep.evaluations += 1;
+            let desc = format!("retry={retry} latency={lat}ms controller={ctl:?} wl={wl:?} drop mask {mask:#b}");
+            let rj = json!({"check":"c12","kind":"hsbalance","retry":retry,"lat":lat,"ctl":format!("{ctl:?}"),"wl":format!("{wl:?}"),"mask":mask});
+            match r {
+                Err(e) => rep.violation(Violation { signature: "panic".into(), what: format!("{desc}: panic {e}"), replay: rj }),
+                Ok((tr, v)) => {
+                    rep.distinct.insert(*tr);
+                    for (sig, what) in v {
+                        rep.violation(Violation { signature: sig.clone(), what: format!("{desc}: {what}"), replay: rj.clone() });
+                    }
+                }
+            }
+        }
+        rep.part("handshake_balance_drop_masks", json!({"K": kb, "planned": planned, "executed": res.len(), "capped": capped}));
+    }
     crate::checks::merge_comp(&mut rep, "C12", thorough, dl);
     rep.sample(json!({"case":"fixed3mtu/W6","deviations":[[12,0]],"meaning":"the client's controller reports a constant 3600-byte window; datagram #12 is dropped; every ack-eliciting datagram the client emits must find in_flight + size < 3600 unless a loss probe is owed"}));
     rep.assumptions = vec![
